@@ -178,7 +178,7 @@ func shuffleInsert(r *Rng, ws []string, w string) []string {
 
 func c16Gen(g *Gen) {
 	r := g.Rng
-	n := g.N(700, 12000)
+	n := g.N(2000, 15000)
 	for i := 0; i < n; i++ {
 		switch x := r.Intn(100); {
 		case x < 70:
